@@ -12,6 +12,24 @@ CLAIMED = {
          "where one case settles a whole configuration for every entry value.",
          "Trusted: Lean kernel; axioms propext/Classical.choice/Quot.sound; the hand-written model; the Python harness; NumPy dtype-parametricity of data movement. "
          "The tie model<->code is sampled over configurations (exhaustive for small ones in the thorough tier)."),
+ "C02": ("Lean 4 refinement theorem (mirror model of partial_trace = index contraction spec) + laws (linearity, trace, product, composition, order) + exact correspondence on integer inputs",
+         "Kernel-checked: ptrace_eq_spec for every n, dimension vector (entries 1 allowed), duplicate-free S in any listing order; linearity, trace preservation, Tr_S of product operators, "
+         "composition and listing-order independence. Tie to /repo: exact equality of partial_trace with the compiled model on random (Gaussian/big) integer matrices, all argument forms, numeric and cvxpy-Variable inputs.",
+         "Trusted: Lean kernel + standard axioms; hand-written model/spec; Python harness; Schwartz-Zippel argument for linear maps on random integer points (thorough tier adds full E_ij bases)."),
+ "C03": ("Lean 4 refinement theorems (mirror models of partial_transpose / realignment = index-exchange specs) + involution/complement/product laws + exact correspondence on labelled inputs",
+         "Kernel-checked: pT_eq_spec for every n, rectangular row/column dims and subset S; involution, full transpose, complement, product operators; realignment formula, R(A (x) B) = vec(A) vec(B)^T and entry bijection "
+         "(hence Frobenius norm). Tie to /repo: exact equality on arange-labelled inputs for all argument forms, numeric and cvxpy-Variable inputs.",
+         "Trusted: Lean kernel + standard axioms; hand-written model/spec; Python harness; NumPy dtype-parametricity of data movement."),
+ "C10": ("Lean 4 weak-duality theorems + verified certificate checker (exact rational PSD certificates) bounding the optimum per instance; toqito's value must lie in the certified interval",
+         "Kernel-checked for all instances: min-error and unambiguous (Gram form) weak duality; soundness of the executable checkers (an accepted primal certificate is a feasible point with that value, an accepted dual certificate bounds "
+         "every POVM). Per run: for each generated ensemble the Lean checker certifies [lo, hi] (width < 1e-4) for the exact image of the inputs and state_distinguishability (4 strategy/form combinations) must return a value inside it within the "
+         "declared solver tolerance; returned measurements are checked to be POVMs attaining the value; Helstrom / orthogonal / prior bounds and invariances are checked on the certified interval.",
+         "Trusted: Lean kernel + standard axioms; Mathlib's PosSemidef; the checker's executable = its verified definition; Python harness. Certificates themselves are untrusted. Strong duality is established per instance (narrow interval), "
+         "not as a theorem. Solver breakdowns (ArithmeticError from CVXOPT) are counted, not judged."),
+ "C18": ("Lean 4 theorems on mirror models of perm_sign / unique_perms / perfect_matchings / (anti)symmetric projections for all d, p + exact correspondence",
+         "Kernel-checked: perm_sign = (-1)^inversions and multiplicative; enumerators complete, duplicate-free with the right counts; projector models = group-average spec for all d, p; Hermitian, idempotent, permutation (sign) action, "
+         "orthogonality, p=2 resolution of identity for all d; ranks for the property's finite table by kernel evaluation. Tie to /repo: exact equality for all permutations <= 6, multisets <= 6, matchings n <= 10, all (d,p) of the table; isometry forms by exact relation residuals.",
+         "Trusted: Lean kernel + standard axioms; hand-written model/spec; Python harness. partial=True (LAPACK orth) is checked through its defining relations, not modelled."),
 }
 PENDING_REASON = "check not built yet in this round (work in progress; see DESIGN.md section 7 for the plan)"
 
@@ -33,7 +51,7 @@ def main():
             })
     man = {
         "version": 1,
-        "setup_cmd": "cd lean && lake build Toq toqdriver",
+        "setup_cmd": "./setup.sh",
         "hooks": {
             "guard": "TOQITO_VERIF",
             "enable": "no source hooks are needed: the harness imports /repo in-process (PYTHONPATH=/repo) and captures cvxpy/picos problems by monkey-patching inside the harness process",
